@@ -395,12 +395,20 @@ def impl(c):
 
 
 def model_line(c):
+    if "fw" in c and c.get("replay"):
+        rep = c["replay"]
+        ts = NOW0 + rep["ahead"]
+        key = f"n-{ts}-ca" + ("-tok-fw" if c["ep"] == "resource" else "")        # as the hooks build it: nonce-timestamp-client[-token]
+        return {"nonce_model": {"window": 300, "ttl": 86400}, "reqs": [{"now": NOW0, "ts": ts, "key": key}, {"now": NOW0 + rep["wait"], "ts": ts, "key": key}]}
     if "fw" in c:
         return None
     return {"cfg": c["cfg"], "ops": c["ops"]}
 
 
 def project(c, out):
+    if "fw" in c and c.get("replay") and "raised" not in out:
+        v = lambda o: "accepted" if o["status"] == 200 else {"invalid_nonce": "replay", "invalid_request": "stale_timestamp"}.get(o["error"], str(o["error"]))
+        return {"verdicts": [v(out["first"]), v(out["second"])]}
     return out
 
 
